@@ -261,6 +261,9 @@ def streams(rng, tier):
     # built with overflow checks, so arithmetic that would wrap in a release build and panic in a debug build panics here)
     from verifkit.props import C04
     yield C04.iter_stream(rng, tier)
+    # one decoder through long scripts (abandoned / never started iterators over strings that declare up to 2^64-1 bytes, failed decodes, probes):
+    # no panic, and no call leaves the decoder beyond its input
+    yield C04.reuse_stream(rng, tier)
     # names taken from the input end up in error messages (serde's "unknown variant `..`" / "unknown field `..`" reach decode::Error::message
     # through the bridge): long names, multi-byte characters at every alignment
     nops = []
@@ -285,7 +288,7 @@ def streams(rng, tier):
 
 def replay_streams(rp):
     op = rp["original_op"]
-    if op.startswith("aiter"):
+    if op.startswith("aiter") or op.startswith("reuse"):
         from verifkit.props import C04
         return C04.replay_streams(rp)
     if op.startswith("de "):
